@@ -178,10 +178,52 @@ static bool traverse_c03(void)
 }
 
 /* ---- C10: transcribe what the PARSER reports into the writer */
+/* LOOKUPS: inside objects the traversal is driven by field lookups instead of next(): before every field a lookup of an
+ * ABSENT name that sorts just before it (the field's name without its last byte, or with its last byte decremented),
+ * then the lookup of the field itself. node = the tree node of the container being transcribed (LOOKUPS only). */
+static bool LOOKUPS;
+static int lk_node[400];
+static bool advance_field(binson_parser *p, int container, int *child)
+{
+    if (*child < 0) { /* after the last field a lookup must miss and next must be false */
+        return false;
+    }
+    const vf_node *x = &D->n[*child];
+    static uint8_t probe[70100];
+    size_t l = (size_t) x->name_len;
+    (void) container;
+    if (l > 0 && l < sizeof probe) {
+        memcpy(probe, D->bytes + x->name_off, l);
+        size_t pl = l;
+        if (probe[l - 1] > 0) probe[l - 1]--; else pl = l - 1;
+        /* only if that name is really absent before this field: it must sort after the previous sibling */
+        int prev = -1;
+        for (int c = D->n[x->parent].first; c >= 0 && c != *child; c = D->n[c].next) prev = c;
+        if (prev < 0 || vf_name_cmp(D->bytes + D->n[prev].name_off, (size_t) D->n[prev].name_len, probe, pl) < 0) {
+            vf_count(CT_CALLS, 1);
+            if (binson_parser_field_with_length(p, (const char *) probe, pl)) return false;    /* reported as a failed traversal below */
+        }
+    }
+    vf_count(CT_CALLS, 1);
+    return binson_parser_field_with_length(p, (const char *) (D->bytes + x->name_off), l);
+}
 static bool transcribe_level(binson_parser *p, binson_writer *w, bool inobj, int depth)
 {
     if (depth > 300) return fail("too-deep", "transcriber recursion");
-    while (binson_parser_next(p)) {
+    int container = LOOKUPS ? lk_node[depth] : -1;
+    int child = (LOOKUPS && container >= 0) ? D->n[container].first : -1;
+    for (;;) {
+        bool more;
+        if (LOOKUPS && inobj && container >= 0) {
+            if (child < 0) { if (binson_parser_next(p)) return fail("lookup-extra", "a field is left after all names of the object were looked up"); break; }
+            more = advance_field(p, container, &child);
+            if (!more) return fail("lookup-miss", "lookup-driven traversal: field %d of node %d not found (error %d)", D->n[child].idx, container, (int) p->error_flags);
+        } else {
+            more = binson_parser_next(p);
+            if (!more) break;
+        }
+        int this_child = child;
+        if (LOOKUPS && container >= 0) { if (!inobj) { if (child < 0) return fail("tree", "more elements than the tree has"); this_child = child; } child = D->n[child].next; }
         vf_count(CT_CALLS, 2);
         if (inobj) {
             bbuf *nm = binson_parser_get_name(p);
@@ -197,6 +239,7 @@ static bool transcribe_level(binson_parser *p, binson_writer *w, bool inobj, int
         case BINSON_TYPE_OBJECT:
             if (!binson_parser_go_into_object(p)) return fail("enter-false", "go_into_object failed");
             binson_write_object_begin(w);
+            lk_node[depth + 1] = this_child;
             if (!transcribe_level(p, w, true, depth + 1)) return false;
             if (!binson_parser_leave_object(p)) return fail("leave-false", "leave_object failed");
             binson_write_object_end(w);
@@ -204,6 +247,7 @@ static bool transcribe_level(binson_parser *p, binson_writer *w, bool inobj, int
         case BINSON_TYPE_ARRAY:
             if (!binson_parser_go_into_array(p)) return fail("enter-false", "go_into_array failed");
             binson_write_array_begin(w);
+            lk_node[depth + 1] = this_child;
             if (!transcribe_level(p, w, false, depth + 1)) return false;
             if (!binson_parser_leave_array(p)) return fail("leave-false", "leave_array failed");
             binson_write_array_end(w);
@@ -406,7 +450,14 @@ static void carrier_len(size_t len)
         carrier_begin(len & 1); vf_b_blob(&CD, kind, kind == VK_STR ? payload : payload_bin, len); carrier_end(label);
     }
     /* a NAME of that length */
-    if (len <= 40000) { vf_b_reset(&CD); vf_b_open(&CD, VK_OBJ); vf_b_name(&CD, payload, len); vf_b_bool(&CD, true); snprintf(label, sizeof label, "name of length %zu", len); carrier_end(label); }
+    if (len <= 40000) {
+        vf_b_reset(&CD); vf_b_open(&CD, VK_OBJ); vf_b_name(&CD, payload, len); vf_b_bool(&CD, true); snprintf(label, sizeof label, "name of length %zu", len); carrier_end(label);
+        if (P_C10 && len > 0) {        /* a field named by a single 0x00 before it, objects traversed by lookups: the miss in front of the long name must hand back exactly that name */
+            vf_b_reset(&CD); vf_b_open(&CD, VK_OBJ); vf_b_name(&CD, "\0", 1); vf_b_int(&CD, 1); vf_b_name(&CD, payload, len); vf_b_bool(&CD, true);
+            snprintf(label, sizeof label, "name of length %zu traversed by field lookups", len);
+            LOOKUPS = true; carrier_end(label); LOOKUPS = false;
+        }
+    }
 }
 
 static void value_families(void)
@@ -556,6 +607,7 @@ static void on_doc(vf_gen *g, void *u)
     int need = needed_depth(&g->doc);
     run_doc(&g->doc, vf_shape(&g->doc), need);
     run_doc(&g->doc, vf_shape(&g->doc), need + 3);
+    if (P_C10) { LOOKUPS = true; run_doc(&g->doc, "same document, objects traversed by field lookups (a miss before every field)", need); LOOKUPS = false; }
     if (!P_C05 && g->doc.nn > 2) { PREPASS = true; run_doc(&g->doc, "same document after a dive to the deepest level and a reset", need); PREPASS = false; }
 }
 
@@ -609,11 +661,11 @@ static void worker(int w, int W, uint64_t start)
     value_families();
     corpus();
     static const int cls[] = { LC_INT8, LC_NEG16, LC_INT32, LC_NEG64, LC_INTMIN, LC_STR, LC_STR0, LC_STRNUL, LC_STR128, LC_BYT, LC_BYT0, LC_DBL, LC_DBLBIG, LC_TRUE, LC_FALSE, LC_OBJ, LC_ARR };
-    static const vf_name names[] = { { (const uint8_t *) "", 0 }, { (const uint8_t *) "a", 1 }, { (const uint8_t *) "a\0b", 3 }, { (const uint8_t *) "a\0c", 3 }, { (const uint8_t *) "\x80\xff", 2 } };
+    static const vf_name names[] = { { (const uint8_t *) "", 0 }, { (const uint8_t *) "a", 1 }, { (const uint8_t *) "a\0b", 3 }, { (const uint8_t *) "a\0c", 3 }, { (const uint8_t *) "temp_max", 8 }, { (const uint8_t *) "temp_min", 8 }, { (const uint8_t *) "\x80\xff", 2 } };
     static vf_gen g;
     for (int root = VK_OBJ; root <= VK_ARR; root++) {
         memset(&g, 0, sizeof g);
-        g.root_kind = root; g.max_tokens = N_DOC; g.classes = cls; g.nclasses = 17; g.names = names; g.nnames = 5; g.max_obj_depth = 0;
+        g.root_kind = root; g.max_tokens = N_DOC; g.classes = cls; g.nclasses = 17; g.names = names; g.nnames = 7; g.max_obj_depth = 0;
         g.cb = on_doc;
         vf_gen_run(&g);
     }
@@ -632,7 +684,7 @@ static void replay_main(void)
     if (vf_ref_decode(bytes, (size_t) n, kind, 255, &R) != VR_OK) vf_die("replay document is not valid");
     R.bytes = bytes; R.len = (size_t) n; R.root_kind = kind;
     D = &R; LABEL = "replay"; MDEPTH = atoi(md);
-    { char *lb = vf_replay_get(t, "label"); PREPASS = lb && strstr(lb, "after a dive") != NULL; }
+    { char *lb = vf_replay_get(t, "label"); PREPASS = lb && strstr(lb, "after a dive") != NULL; LOOKUPS = lb && strstr(lb, "field lookups") != NULL; }
     vf_g.wid = 0;
     vf_fatal_describe = describe;
     vf_install_fatal();
